@@ -350,6 +350,95 @@ pub fn strings(ctx: &Ctx) {
     ctx.observe_u64((bi * 100 + field) as u64);
 }
 
+/// (vii) all sequences of <= 3 representation calls (visual reference, pinhole, spherical,
+/// cylindrical; with / without mask) on one ImageWriter: an image has one visual reference slot and
+/// one projection slot, a call is accepted exactly when its slot is still empty, and the finalized
+/// image reads back with the accepted representations and their own data
+pub fn image_calls(ctx: &Ctx) {
+    let n = 1 + ctx.pick("calls", 3);
+    let mut calls = Vec::new();
+    for _ in 0..n {
+        calls.push((ctx.pick("representation", 4), ctx.pick("mask", 2) == 1));
+    }
+    ctx.describe(|| format!("one image: {:?} then finalize", calls.iter().map(|(k, m)| format!("{}{}", ["visual", "pinhole", "spherical", "cylindrical"][*k], if *m { "+mask" } else { "" })).collect::<Vec<_>>()));
+    let res = guarded(|| -> Result<(Vec<u8>, m::Image, Vec<String>), String> {
+        let es = |c: &str, e: e57::Error| format!("{c}: {}", err_string(&e));
+        let dev = Dev::empty();
+        let h = dev.handle();
+        let mut w = E57Writer::new(dev, "g").map_err(|e| es("new", e))?;
+        let mut exp = m::Image { guid: Some("img".into()), ..Default::default() };
+        let mut problems = Vec::new();
+        {
+            let mut iw = w.add_image("img").map_err(|e| es("add_image", e))?;
+            for (ci, (kind, mask)) in calls.iter().enumerate() {
+                let src = image(*kind, *mask, 20 + 7 * ci, 40 + ci as u64);
+                let rep = if *kind == 0 { src.visual.clone().unwrap() } else { src.projection.clone().unwrap() };
+                let mut d = Src::new(rep.blob.data.clone());
+                let mut ms = rep.mask.as_ref().map(|m| Src::new(m.data.clone()));
+                let mk = ms.as_mut().map(|m| m as &mut dyn std::io::Read);
+                let (wd, ht) = (rep.width as u32, rep.height as u32);
+                let r = match &rep.proj {
+                    None => iw.add_visual_reference(fmt_to_e57(&rep.format), &mut d, e57::VisualReferenceImageProperties { width: wd, height: ht }, mk),
+                    Some(m::ProjKind::Pinhole { focal, pw, ph, ppx, ppy }) => {
+                        iw.add_pinhole(fmt_to_e57(&rep.format), &mut d, e57::PinholeImageProperties { width: wd, height: ht, focal_length: *focal, pixel_width: *pw, pixel_height: *ph, principal_x: *ppx, principal_y: *ppy }, mk)
+                    }
+                    Some(m::ProjKind::Spherical { pw, ph }) => iw.add_spherical(fmt_to_e57(&rep.format), &mut d, e57::SphericalImageProperties { width: wd, height: ht, pixel_width: *pw, pixel_height: *ph }, mk),
+                    Some(m::ProjKind::Cylindrical { radius, ppy, pw, ph }) => {
+                        iw.add_cylindrical(fmt_to_e57(&rep.format), &mut d, e57::CylindricalImageProperties { width: wd, height: ht, radius: *radius, principal_y: *ppy, pixel_width: *pw, pixel_height: *ph }, mk)
+                    }
+                };
+                let slot_free = if *kind == 0 { exp.visual.is_none() } else { exp.projection.is_none() };
+                match (r.is_ok(), slot_free) {
+                    (true, true) => {
+                        if *kind == 0 {
+                            exp.visual = Some(rep);
+                        } else {
+                            exp.projection = Some(rep);
+                        }
+                    }
+                    (false, false) => {}
+                    (true, false) => problems.push(format!("call #{ci} was accepted although the image already has a {}", if *kind == 0 { "visual reference" } else { "projection" })),
+                    (false, true) => problems.push(format!("call #{ci} was refused ({}) although its slot is empty", r.err().map(|e| err_string(&e)).unwrap_or_default())),
+                }
+            }
+            iw.finalize().map_err(|e| es("image.finalize", e))?;
+        }
+        w.finalize().map_err(|e| es("finalize", e))?;
+        drop(w);
+        Ok((h.snapshot(), exp, problems))
+    });
+    let (bytes, exp, problems) = match res {
+        Err(pi) => {
+            ctx.violation(format!("{P}/panic/{}", pi.class()), format!("writer panicked at {} ({})", pi.loc, pi.msg));
+            return;
+        }
+        Ok(Err(e)) => {
+            ctx.violation(format!("{P}/valid-call-failed/{}", msg_class(&e)), e);
+            return;
+        }
+        Ok(Ok(x)) => x,
+    };
+    if let Some(pb) = problems.first() {
+        ctx.violation(format!("{P}/misuse/image-representation-slots"), format!("{pb}; calls {calls:?}"));
+        return;
+    }
+    match guarded(|| read_back(bytes.clone())) {
+        Ok(Ok(rb)) => {
+            let mut e = m::Scene { guid: "g".into(), format_name: rb.scene.format_name.clone(), library_version: rb.scene.library_version.clone(), ..Default::default() };
+            e.images.push(exp);
+            let d = m::diff_scene(&e, &rb.scene, false, false);
+            if !d.is_empty() {
+                ctx.violation(format!("{P}/diff/{}", diff_class(&d[0])), format!("{}; calls {calls:?}", d.join(" || ")));
+                return;
+            }
+            ctx.observe(&bytes);
+            ctx.nontrivial();
+        }
+        Ok(Err((st, e))) => ctx.violation(format!("{P}/read-err/{}", msg_class(&e)), format!("{st}: {e}; calls {calls:?}")),
+        Err(pi) => ctx.violation(format!("{P}/read-panic/{}", pi.class()), format!("reader panicked at {} ({})", pi.loc, pi.msg)),
+    }
+}
+
 // ------------------------------------------------------------------------------------------
 // values
 
